@@ -92,6 +92,8 @@ Blame ==
   @@ "oe.ready.publish" :> {"C09"} @@ "oe.actor.publish" :> {"C09"}
   @@ "un.flush" :> {"C12", "C02"} @@ "un.resp" :> {"C02"} @@ "un.await" :> {"C04", "C02"} @@ "un.join" :> {"C17", "C02"}
   @@ "un.loop.closed" :> {"C05"} @@ "un.loop.deq" :> {"C02", "C05"} @@ "un.loop" :> {"C02"} @@ "un.timer" :> {"C10"} @@ "un.adv" :> {"C10", "C11"}
+  @@ "oe.cancel.send" :> {"C12"} @@ "oe.cancel.call" :> {"C02"} @@ "oe.cancel.ping" :> {"C02"} @@ "oe.cancel.join" :> {"C17"}
+  @@ "oe.cancel.await_ref" :> {"C04"} @@ "oe.cancel.try_halt" :> {"C04"}
   @@ "blk.timer"  :> {"C10"}
   @@ "exit.timer" :> {"C10"}
   @@ "tf.state"   :> {"C10", "C07"}
